@@ -232,3 +232,65 @@ impl Read for InterruptOnce {
 		self.inner.read(buf)
 	}
 }
+
+/// A breadcrumb that survives the death of the process: the case about to be
+/// run is copied into a shared file mapping (no system call per case), so that
+/// when xt takes the whole process down — abort, stack overflow, heap
+/// corruption caught by the allocator — the orchestrator can still name the
+/// input. Layout: u32 LE text length, u32 LE data length, text, data.
+pub mod crumb {
+	use std::sync::atomic::{AtomicPtr, AtomicUsize, Ordering};
+
+	static BASE: AtomicPtr<u8> = AtomicPtr::new(std::ptr::null_mut());
+	static CAP: AtomicUsize = AtomicUsize::new(0);
+	const SIZE: usize = 8 << 20;
+
+	pub fn init(path: &str) {
+		use std::os::unix::io::AsRawFd;
+		let Ok(f) = std::fs::OpenOptions::new().read(true).write(true).create(true).truncate(true).open(path) else { return };
+		if f.set_len(SIZE as u64).is_err() {
+			return;
+		}
+		// SAFETY: a fresh shared mapping of a file this process just created and
+		// sized; it is never unmapped and only written through `set`.
+		let p = unsafe { libc::mmap(std::ptr::null_mut(), SIZE, libc::PROT_READ | libc::PROT_WRITE, libc::MAP_SHARED, f.as_raw_fd(), 0) };
+		if p == libc::MAP_FAILED {
+			return;
+		}
+		CAP.store(SIZE, Ordering::SeqCst);
+		BASE.store(p as *mut u8, Ordering::SeqCst);
+	}
+
+	pub fn set(text: &str, data: &[u8]) {
+		let base = BASE.load(Ordering::Relaxed);
+		if base.is_null() {
+			return;
+		}
+		let cap = CAP.load(Ordering::Relaxed);
+		let t = text.as_bytes();
+		let tl = t.len().min(4096);
+		let dl = data.len().min(cap - 8 - tl);
+		// SAFETY: `base..base+cap` is the mapping made by `init`; the three
+		// copies stay inside it (tl <= 4096, dl <= cap - 8 - tl).
+		unsafe {
+			std::ptr::copy_nonoverlapping((tl as u32).to_le_bytes().as_ptr(), base, 4);
+			std::ptr::copy_nonoverlapping((dl as u32).to_le_bytes().as_ptr(), base.add(4), 4);
+			std::ptr::copy_nonoverlapping(t.as_ptr(), base.add(8), tl);
+			std::ptr::copy_nonoverlapping(data.as_ptr(), base.add(8 + tl), dl);
+		}
+	}
+
+	/// Reads a breadcrumb file back: (text, data).
+	pub fn load(path: &str) -> Option<(String, Vec<u8>)> {
+		let b = std::fs::read(path).ok()?;
+		if b.len() < 8 {
+			return None;
+		}
+		let tl = u32::from_le_bytes([b[0], b[1], b[2], b[3]]) as usize;
+		let dl = u32::from_le_bytes([b[4], b[5], b[6], b[7]]) as usize;
+		if tl == 0 || 8 + tl + dl > b.len() {
+			return None;
+		}
+		Some((String::from_utf8_lossy(&b[8..8 + tl]).into_owned(), b[8 + tl..8 + tl + dl].to_vec()))
+	}
+}
